@@ -1,35 +1,13 @@
-import Pocket.Lemmas.RoundTrip
-import Pocket.Lemmas.FilterRT
+import Pocket.Lemmas.JsonText
 /- Order independence and whitespace tolerance of `Event::from_json` (C01): the seven members of an
-event, rendered as `as_json` renders their values, in ANY order, with ANY whitespace before a key,
+event — the tags array and the content in ANY JSON spelling (`TagsText`, `Spells`: whitespace inside the
+arrays, any legal escapes), hex and decimal members as `as_json` renders them — in ANY order, with ANY whitespace before a key,
 around the colon and after a value, parse to exactly the bytes `from_parts` writes. -/
 namespace Pocket
 
 inductive EMem where
   | id | pubkey | kind | createdAt | tags | content | sig
 deriving DecidableEq, Repr
-
-/-- a run of JSON whitespace -/
-def AllWs (w : Bytes) : Prop := ∀ b ∈ w, isWs b = true
-
-theorem eatWs_ws (w x : Bytes) (hw : AllWs w) : eatWs (w ++ x) = eatWs x := by
-  induction w with
-  | nil => rfl
-  | cons b w ih =>
-    have hb := hw b (by simp)
-    simp only [List.cons_append, eatWs, hb, if_true]
-    exact ih (fun y hy => hw y (by simp [hy]))
-
-theorem eatWs_ws_keep (w : Bytes) (b : Nat) (x : Bytes) (hw : AllWs w) (hb : isWs b = false) :
-    eatWs (w ++ b :: x) = b :: x := by
-  rw [eatWs_ws w _ hw, eatWs_nonws b x hb]
-
-theorem eatColon_ws (w1 w2 : Bytes) (b : Nat) (x : Bytes) (h1 : AllWs w1) (h2 : AllWs w2) (hb : isWs b = false) :
-    eatColon (w1 ++ 58 :: (w2 ++ b :: x)) = .ok (b :: x) := by
-  unfold eatColon
-  rw [eatWs_ws_keep w1 58 _ h1 (by decide)]
-  simp only [verifyChar, if_true]
-  rw [eatWs_ws_keep w2 b x h2 hb]
 
 /-- what follows a value: whitespace, then `,` or `}` -/
 def Sep (w3 : Bytes) (last : Bool) (X : Bytes) : Bytes := w3 ++ (if last then 125 else 44) :: X
@@ -66,10 +44,8 @@ structure ECtx (e : EventRec) (tj ec : Bytes) (cap : Nat) : Prop where
   bid : ∀ b ∈ e.id, b < 256
   bpk : ∀ b ∈ e.pubkey, b < 256
   bsig : ∀ b ∈ e.sig, b < 256
-  ut : TagsUtf8 e.tags
-  uc : IsUtf8 e.content
-  htj : tagsJson e.tags = .ok tj
-  hec : jsonEscape e.content = .ok ec
+  htj : TagsText e.tags tj
+  hec : Spells e.content ec
   hcap : 144 + tagsSize e.tags + 4 + e.content.length ≤ cap
 
 def keyOf : EMem → Bytes
@@ -126,13 +102,6 @@ structure EvOk (e : EventRec) (ec : Bytes) (st : EvSt) : Prop where
   tags : ∀ tb, st.tags = some tb → tb = encodeTags e.tags
   cs : ∀ c, st.contentStart = some c → ∃ a, c = 34 :: (ec ++ 34 :: a)
 
-theorem tj_head (ts : TagsRec) (tj : Bytes) (h : tagsJson ts = .ok tj) : ∃ x, tj = 91 :: x := by
-  unfold tagsJson at h
-  split at h
-  · simp only [Outcome.ok.injEq] at h; exact ⟨_, by rw [← h]; rfl⟩
-  · cases h
-  · cases h
-
 theorem decOf_head (n : Nat) : ∃ d ds, decOf n = d :: ds ∧ isWs d = false := by
   obtain ⟨d, ds, h, h1, h2⟩ := decDigits_head (n + 1) n (by omega)
   exact ⟨d, ds, h, by unfold isWs; simp; omega⟩
@@ -142,7 +111,7 @@ theorem evMember_mem (e : EventRec) (tj ec : Bytes) (cap : Nat) (hc : ECtx e tj 
     (hok : EvOk e ec st) (m : EMem) (hf : MemFresh st m) (w1 w2 : Bytes) (h1 : AllWs w1) (h2 : AllWs w2)
     (after : Bytes) (hafter : NoLeadingDigit after) :
     evMember st (memText e tj ec m w1 w2 ++ after) cap = .ok (evApply e ec st m after, after) := by
-  obtain ⟨⟨s1, s2, s3, s4, s5, s6, s7⟩, bid, bpk, bsig, ut, uc, htj, hec, hcap⟩ := hc
+  obtain ⟨⟨s1, s2, s3, s4, s5, s6, s7⟩, bid, bpk, bsig, htj, hec, hcap⟩ := hc
   unfold eventSize at s7
   cases m with
   | id =>
@@ -181,9 +150,9 @@ theorem evMember_mem (e : EventRec) (tj ec : Bytes) (cap : Nat) (hc : ECtx e tj 
     rw [hrd]
   | tags =>
     simp only [MemFresh] at hf
-    obtain ⟨x, hx⟩ := tj_head e.tags tj htj
+    obtain ⟨x, hx⟩ := htj.head
     have hcol := eatColon_ws w1 w2 91 (x ++ after) h1 h2 (by decide)
-    have hrt := readTagsArray_tagsJson e.tags ut tj after htj (cap - 144) s6 (by omega)
+    have hrt := readTagsArray_text e.tags tj after htj (cap - 144) s6 (by omega)
     rw [hx] at hrt
     cases hcs : st.contentStart with
     | none =>
@@ -192,7 +161,7 @@ theorem evMember_mem (e : EventRec) (tj ec : Bytes) (cap : Nat) (hc : ECtx e tj 
       simp [hrt]
     | some cs =>
       obtain ⟨a, rfl⟩ := hok.cs cs hcs
-      have hrc := readContent_escape e.content ec a cap (144 + (encodeTags e.tags).length) uc hec
+      have hrc := readContent_spells e.content ec a cap (144 + (encodeTags e.tags).length) hec
         (by rw [encodeTags_length]; omega) (by rw [encodeTags_length]; omega)
       simp [memText, keyOf, valOf, evApply, evMember, verifyChar, startsWith, kId, kSig, kKind, kTags, hf, hx, hcol, hcs]
       simp only [List.cons_append] at hrt
@@ -202,13 +171,13 @@ theorem evMember_mem (e : EventRec) (tj ec : Bytes) (cap : Nat) (hc : ECtx e tj 
     have hcol := eatColon_ws w1 w2 34 (ec ++ 34 :: after) h1 h2 (by decide)
     cases htg : st.tags with
     | none =>
-      have hb := burnString_escape e.content ec after uc hec
+      have hb := burnString_spells e.content ec after hec
       simp [memText, keyOf, valOf, evApply, evMember, verifyChar, startsWith, kId, kSig, kKind, kTags, kPubkey, kContent,
         hf, hcol, htg, hb]
     | some tb =>
       have htb := hok.tags tb htg
       subst htb
-      have hrc := readContent_escape e.content ec after cap (144 + (encodeTags e.tags).length) uc hec
+      have hrc := readContent_spells e.content ec after cap (144 + (encodeTags e.tags).length) hec
         (by rw [encodeTags_length]; omega) (by rw [encodeTags_length]; omega)
       simp [memText, keyOf, valOf, evApply, evMember, verifyChar, startsWith, kId, kSig, kKind, kTags, kPubkey, kContent,
         hf, hcol, htg, hrc]
